@@ -144,7 +144,6 @@ CONTAINER = {
     "ImageSet.ImageDeleted": lambda o, d: d["name"] in o.fileNames,
     "ImageSet.ImageChanged": lambda o, d: d["name"] in o.fileNames,
     "Glyph.ImageCleared": _image_state,
-    "Glyph.ImageChanged": _image_state,
 }
 
 INTERESTING = set(PAYLOAD) | set(WILL) | set(CONTAINER) | {w[0] for w in WILL.values()}
